@@ -60,7 +60,8 @@ def make_world(pp, subs, spec):
             w[name] = pp.Container(name, s[1], [(subs[x], q) for x, q in s[2]] or None)
         else:
             rows, cols = s[2], s[3]
-            w[name] = pp.Plate(name, s[1], rows=rows, columns=cols)
+            # an optional 5th entry gives the object's own name (two versions of one plate share their name)
+            w[name] = pp.Plate(s[4] if len(s) > 4 else name, s[1], rows=rows, columns=cols)
     return w
 
 
